@@ -73,7 +73,24 @@ pub fn gen(tier: &str, r: &mut Rng) -> Vec<String> {
         } } } } }
         let (_, back) = realise(&s);
         for level in ["pdb", "model", "chain", "residue", "conformer", "atom"] {
-            let p = [r.below(back.models.len().max(1)), r.below(3), r.below(3), r.below(2), r.below(4)];
+            let mut p = [0usize; 5];
+            if !back.models.is_empty() {
+                p[0] = r.below(back.models.len());
+                let m = &back.models[p[0]];
+                if !m.chains.is_empty() {
+                    p[1] = r.below(m.chains.len());
+                    let c = &m.chains[p[1]];
+                    if !c.residues.is_empty() {
+                        p[2] = r.below(c.residues.len());
+                        let x = &c.residues[p[2]];
+                        if !x.confs.is_empty() {
+                            p[3] = r.below(x.confs.len());
+                            let f = &x.confs[p[3]];
+                            if !f.atoms.is_empty() { p[4] = r.below(f.atoms.len()); }
+                        }
+                    }
+                }
+            }
             out.push(format!("c13 struct {} {} {} {} {} {} {} {}", level, p[0], p[1], p[2], p[3], p[4], toks(&gen_mat(r, true)), back.line()));
         }
     }
